@@ -185,21 +185,43 @@ def gen_sites():
         names = set(re.findall(r"let\s+(?:mut\s+)?(\w+)(?:\s*:\s*[^=]+)?\s*=\s*Hash(?:Set|Map)::new\(\)", src))
         names |= set(re.findall(r"(\w+)\s*:\s*&?(?:mut\s+)?Hash(?:Set|Map)<", src))
         names |= set(re.findall(r"let\s+(?:mut\s+)?(\w+)\s*:\s*Hash(?:Map|Set)<", src))
+        # iteration over a hash container, wherever the method chain is broken across lines
+        fn_starts = [(m.start(), m.group(1)) for m in re.finditer(r"\bfn\s+(\w+)", src)]
+        def fn_at(pos):
+            cur = "?"
+            for st, name in fn_starts:
+                if st <= pos: cur = name
+                else: break
+            return cur
+        found = []
+        for n in names:
+            pats = [r"\bfor\b[^{;]*\bin\s+&?(?:mut\s+)?" + n + r"\b(?!\s*\.)",
+                    r"\b" + n + r"\s*\.\s*(?:iter|into_iter|keys|values|drain|iter_mut|values_mut|into_keys|into_values|retain|extract_if)\s*\("]
+            for pat in pats:
+                for m in re.finditer(pat, src):
+                    window = src[m.start():m.start() + 400]
+                    before = src[max(0, m.start() - 400):m.start()]
+                    mm = re.search(r"let\s+(?:mut\s+)?(\w+)\s*=\s*$", before[-60:]) if False else re.search(r"let\s+(?:mut\s+)?(\w+)\s*=\s*" + n + r"\s*\.\s*into_iter\(\)\s*\.\s*collect", src[max(0, m.start() - 40):m.start() + 200])
+                    is_sorted = bool(mm and re.search(r"\b" + mm.group(1) + r"\s*\.\s*sort(_unstable)?\s*\(", window))
+                    # a name re-bound to the sorted vector is no longer a hash container
+                    rebound = mm is None and re.search(r"let\s+(?:mut\s+)?" + n + r"\s*=\s*" + n + r"\s*\.\s*into_iter", before)
+                    # `let mut NAME: HashMap<..> = NAME.iter()…`: the initialiser iterates over the *previous* binding
+                    # of the name (a slice parameter), not over the hash container being built
+                    own_init = re.search(r"let\s+(?:mut\s+)?" + n + r"\s*(:[^=;]*)?=\s*$", before)
+                    if own_init and own_init.group(1) and "Hash" in own_init.group(1):
+                        continue
+                    if is_sorted or not rebound:
+                        found.append((m.start(), (f, fn_at(m.start()), n, is_sorted)))
+        seen_pos = set()
+        for pos, item in sorted(found):
+            if pos not in seen_pos:
+                seen_pos.add(pos)
+                hash_iter.append(item)
         fn = None
         lines_ = src.split("\n")
         for ln, line in enumerate(lines_, 1):
             m = re.search(r"\bfn\s+(\w+)", line)
             if m: fn = m.group(1)
-            for n in names:
-                if re.search(r"\bfor\b[^{]*\bin\s+&?(?:mut\s+)?" + n + r"\b(?!\.)", line) or \
-                   re.search(r"\b" + n + r"\s*\.\s*(iter|into_iter|keys|values|drain|iter_mut|values_mut)\s*\(", line):
-                    # is the iteration collected into a vector that is sorted before use?
-                    window = " ".join(lines_[ln - 1:ln + 3])
-                    mm = re.search(r"let\s+(?:mut\s+)?(\w+)\s*=\s*" + n + r"\s*\.\s*into_iter\(\)\s*\.\s*collect", window)
-                    is_sorted = bool(mm and re.search(r"\b" + mm.group(1) + r"\s*\.\s*sort(_unstable)?\s*\(", window))
-                    # a name re-bound to the sorted vector is no longer a hash container
-                    if is_sorted or not (mm is None and re.search(r"let\s+(?:mut\s+)?" + n + r"\s*=\s*" + n + r"\s*\.\s*into_iter", " ".join(lines_[max(0, ln - 6):ln]))):
-                        hash_iter.append((f, fn or "?", n, is_sorted))
             for pat, kind in ((r"\.unwrap\(\)", "unwrap"), (r"\.expect\(", "expect"), (r"\bpanic!\(", "panic"),
                               (r"\bassert(?:_eq|_ne)?!\(", "assert"), (r"\bunreachable!\(", "unreachable")):
                 for _ in re.finditer(pat, line):
